@@ -281,7 +281,13 @@ where
             let allow = s.list.as_ref().map(|l| l.iter().enumerate().map(|(n, i)| list_descriptor(s, n, ids.get(*i).map(|v| v.as_slice()).unwrap_or(&[0xEE; 32]))).collect());
             let ext = s.prf.then(|| ctap2::get_assertion::ExtensionInputs {
                 hmac_secret: None,
-                prf: Some(ctap2::extensions::AuthenticatorPrfInputs { eval: Some(ctap2::extensions::AuthenticatorPrfValues { first: [4; 32], second: Some([5; 32]) }), eval_by_credential: None }),
+                // half of the PRF requests carry per-credential inputs naming the held credentials (with or
+                // without default inputs next to them; with or without an allow list: the authenticator is
+                // not entitled to assume the platform checked anything)
+                prf: Some(ctap2::extensions::AuthenticatorPrfInputs {
+                    eval: (s.names != 1).then_some(ctap2::extensions::AuthenticatorPrfValues { first: [4; 32], second: Some([5; 32]) }),
+                    eval_by_credential: (s.names % 2 == 1 || s.list_hints).then(|| ids.iter().enumerate().map(|(n, i)| (i.clone().into(), ctap2::extensions::AuthenticatorPrfValues { first: [0x60 + n as u8; 32], second: None })).collect()),
+                }),
             });
             let mut req = ga_request(s.rp, &vec![8u8; s.cdh_len], allow, ext, s.up, s.uv);
             req.pin_protocol = s.pin_protocol;
@@ -416,12 +422,63 @@ pub fn iso_case(args: &Args, idx: u64) -> CaseOut {
     out
 }
 
+/// Seconds a slow user takes to answer the prompt (an injected delay between two polls of the ceremony).
+const SLOW_USER_SECS: u64 = 31;
+
+/// One ceremony with a user who answers the prompt only after `SLOW_USER_SECS`: the ceremony is polled
+/// once (it suspends in the user-validation step), left alone for that long, and then polled to the end.
+/// Returns (status, number of credentials in the store afterwards, counter of the seeded credential).
+fn slow_user_ceremony(make: bool, via_trait: bool) -> (Result<(), u8>, usize, Option<u32>) {
+    use std::future::Future;
+    let rig = crate::util::Rig::ok(Disc::Full);
+    let id = vec![0x5Au8; 16];
+    let mut rng = Rng::derive(3, "c18slow", 0);
+    rig.store.insert_raw(seeded_passkey(&mut rng, "example.com", &id, Some(b"uh"), Some(5), None).0);
+    rig.uv.set_yields(1);
+    let mut auth = rig.auth(AuthCfg { counters: true, ..Default::default() });
+    let status = {
+        let mut fut: std::pin::Pin<Box<dyn Future<Output = Result<(), u8>>>> = if make {
+            let req = mc_request("example.com", b"slow-user", &[1u8; 32], vec![pk_param(coset::iana::Algorithm::ES256)], None, None, false, true, true);
+            if via_trait {
+                Box::pin(async { Ctap2Api::make_credential(&mut auth, req).await.map(|_| ()).map_err(|e| status_byte_ref(&e)) })
+            } else {
+                Box::pin(async { auth.make_credential(req).await.map(|_| ()).map_err(|e| status_byte_ref(&e)) })
+            }
+        } else {
+            let req = ga_request("example.com", &[2u8; 32], Some(vec![crate::util::descriptor(&id)]), None, true, true);
+            if via_trait {
+                Box::pin(async { Ctap2Api::get_assertion(&mut auth, req).await.map(|_| ()).map_err(|e| status_byte_ref(&e)) })
+            } else {
+                Box::pin(async { auth.get_assertion(req).await.map(|_| ()).map_err(|e| status_byte_ref(&e)) })
+            }
+        };
+        let (_flag, waker) = crate::exec::flag_waker();
+        let mut cx = std::task::Context::from_waker(&waker);
+        match fut.as_mut().poll(&mut cx) {
+            std::task::Poll::Ready(v) => v,
+            std::task::Poll::Pending => {
+                std::thread::sleep(std::time::Duration::from_secs(SLOW_USER_SECS));
+                block_on(fut)
+            }
+        }
+    };
+    let snap = rig.store.snapshot();
+    (status, snap.len(), snap.iter().find(|c| c.id == id).and_then(|c| c.counter))
+}
+
 pub fn run(args: &Args) -> Report {
+    // a user who takes half a minute to answer: both routes, both ceremonies, in threads of their own
+    // while the rest of the check runs (overflow-checking build only; one injected delay per run)
+    let slow: Vec<std::thread::JoinHandle<(bool, bool, (Result<(), u8>, usize, Option<u32>))>> = if args.engine.is_none() && replay_index(args).is_none() && !cfg!(miri) {
+        [(true, false), (true, true), (false, false), (false, true)].into_iter().map(|(make, via_trait)| std::thread::spawn(move || (make, via_trait, slow_user_ceremony(make, via_trait)))).collect()
+    } else {
+        Vec::new()
+    };
     let mut rep = Report::new(
         "C18",
         &args.tier,
         args.seed,
-        "getInfo / makeCredential / getAssertion requests (successful and failing: algorithm lists, exclude/allow lists, rk/up/uv, PRF, pin-auth) over the reference store, MemoryStore and Option<Passkey> with scripted user-validation outcomes, executed on two identically prepared authenticators - once through <Authenticator as Ctap2Api> and once directly - in crash-isolating workers; distinct by (operation, store, UV outcome, list, options, status); non-trivial when both routes executed to completion and were compared",
+        "getInfo / makeCredential / getAssertion requests (successful and failing: algorithm lists, exclude/allow lists, rk/up/uv, PRF, pin-auth) over the reference store, MemoryStore and Option<Passkey> with scripted user-validation outcomes, executed on two identically prepared authenticators - once through <Authenticator as Ctap2Api> and once directly - in crash-isolating workers, plus both ceremonies on both routes with a user who answers the prompt after 31 s (an injected delay between two polls); distinct by (operation, store, UV outcome, list, options, status); non-trivial when both routes executed to completion and were compared",
     );
     rep.assumptions.push("ECDSA signing is deterministic (RFC 6979), so assertion signatures of the two routes are compared byte for byte; registrations are compared modulo the fresh key and credential id".into());
     let total = args.size(1600, 30_000) as u64;
@@ -450,6 +507,26 @@ pub fn run(args: &Args) -> Report {
     }
     for i in res.inconclusive {
         rep.inconclusive(i);
+    }
+    let mut slow_results = Vec::new();
+    for h in slow {
+        match h.join() {
+            Ok(r) => slow_results.push(r),
+            Err(_) => rep.violate("a ceremony with a slow user panicked", String::new(), json!({"part": "slow user"})),
+        }
+    }
+    for make in [true, false] {
+        let direct = slow_results.iter().find(|r| r.0 == make && !r.1).map(|r| &r.2);
+        let through = slow_results.iter().find(|r| r.0 == make && r.1).map(|r| &r.2);
+        if let (Some(d), Some(t)) = (direct, through) {
+            rep.eval();
+            rep.count("slow_user_ceremonies_compared");
+            rep.nontrivial(fnv_str(&format!("slow|{make}")));
+            let case = json!({"part": "the user answers the prompt after a pause", "pause_seconds": SLOW_USER_SECS, "op": if make { "make_credential" } else { "get_assertion" }});
+            if d != t {
+                rep.violate(&format!("Ctap2Api::{}: result or effect on the store differs from the direct method when the user takes a while to answer", if make { "make_credential" } else { "get_assertion" }), format!("(status, credentials stored, counter of the held credential): direct {d:?}, trait {t:?}"), case);
+            }
+        }
     }
     if only.is_none() && (rep.get("compared:get_assertion:ok") == 0 || rep.get("compared:make_credential:ok") == 0 || rep.get("compared:get_info:ok") == 0) && rep.violation_total() == 0 {
         rep.inconclusive("an operation was never compared on a successful request".into());
